@@ -10,6 +10,8 @@ def run_auth(ctx, mode):
     args = ["auth", "-mode", mode, "-out", pre, "-seed", str(ctx.seed), "-tier", ctx.tier]
     if code_flags().get("login_cookie_strict"):
         args.append("-cookie-strict")
+    if code_flags().get("ingress_segment_prefix"):
+        args.append("-seg-prefix")
     out, dt = vf.run_driver(args)
     ctx.timings["auth-" + mode] = round(dt, 2)
     ctx.correspondence("auth/%s: real router + handlers + openid client + fake provider vs Model/Auth.v (symbolic request, cookie and back-channel terms)" % mode,
